@@ -217,6 +217,11 @@ fn per_queue_full(q: u8) -> Vec<Op> {
         },
         Op::Append {
             q,
+            pos: Pos::Gap,
+            sizes: vec![Sz::S1, Sz::S5],
+        },
+        Op::Append {
+            q,
             pos: Pos::Retry,
             sizes: vec![],
         },
